@@ -97,6 +97,57 @@ pub fn dispatch(op: &str, a: &[Val]) -> Option<Val> {
             Some(enc_mlt(o.with_ymd_and_hms(a.get(1)?.i32()?, a.get(2)?.u32()?, a.get(3)?.u32()?,
                                             a.get(4)?.u32()?, a.get(5)?.u32()?, a.get(6)?.u32()?), enc_z))
         })(),
+        // operator month stepping, From conversions, partial order across zones, utc_minus_local,
+        // provided methods of Datelike / Timelike on a zone-aware value
+        "z.opmonths" => (|| {
+            let z = dec_dt(a.get(0)?)?; let n = Months::new(a.get(2)?.u32()?);
+            match a.get(1)?.int()? {
+                1 => Some(enc_z(z + n)),
+                -1 => Some(enc_z(z - n)),
+                _ => None,
+            }
+        })(),
+        "z.conv" => (|| {
+            let z = dec_dt(a.get(0)?)?;
+            let u: DateTime<Utc> = DateTime::<Utc>::from(z);
+            let f: DateTime<FixedOffset> = DateTime::<FixedOffset>::from(u);
+            Some(vtup(vec![enc_dt(&u), enc_z(f)]))
+        })(),
+        "z.pcmp" => (|| {
+            let x = dec_dt(a.get(0)?)?; let y = dec_dt(a.get(1)?)?;
+            let yu: DateTime<Utc> = y.to_utc();
+            Some(vtup(vec![
+                vopt(x.partial_cmp(&y), |o| vint(o as i8)), vopt(x.partial_cmp(&yu), |o| vint(o as i8)),
+                vbool(x == yu), vbool(x != y),
+                vbool(x < y), vbool(x <= y), vbool(x > y), vbool(x >= y),
+                vbool(x < yu), vbool(x >= yu),
+            ]))
+        })(),
+        "z.uml" => (|| { let o = off(a.get(0)?)?; Some(vtup(vec![vint(o.utc_minus_local()), vint(o.local_minus_utc())])) })(),
+        "z.prov" => (|| {
+            let z = dec_dt(a.get(0)?)?;
+            let (ce, y) = z.year_ce(); let (pm, h12) = z.hour12();
+            Some(vtup(vec![vbool(ce), vint(y), vint(z.quarter()), vint(z.num_days_from_ce()), vint(z.num_days_in_month()),
+                           vbool(pm), vint(h12), vint(z.num_seconds_from_midnight()), vint(z.iso_week().week0())]))
+        })(),
+        // the deprecated panicking constructors
+        #[allow(deprecated)]
+        "z.peast" => (|| Some(enc_fo(FixedOffset::east(a.get(0)?.i32()?))))(),
+        #[allow(deprecated)]
+        "z.pwest" => (|| Some(enc_fo(FixedOffset::west(a.get(0)?.i32()?))))(),
+        // direct constructors (from_naive_utc_and_offset, the deprecated from_utc / from_local) and timezone()
+        "z.mk" => (|| {
+            let o = off(a.get(0)?)?; let u = dec_ndt(a.get(1)?)?;
+            let z = DateTime::<FixedOffset>::from_naive_utc_and_offset(u, o);
+            #[allow(deprecated)]
+            let z2 = DateTime::<FixedOffset>::from_utc(u, o);
+            Some(vtup(vec![enc_z(z), vint(z.timezone().local_minus_utc()), enc_z(z2)]))
+        })(),
+        #[allow(deprecated)]
+        "z.pfromlocal" => (|| {
+            let o = off(a.get(0)?)?; let l = dec_ndt(a.get(1)?)?;
+            Some(enc_z(DateTime::<FixedOffset>::from_local(l, o)))
+        })(),
         _ => return None,
     };
     Some(r.unwrap_or_else(bad))
